@@ -252,6 +252,21 @@ func Structured(rng *rand.Rand) []Input {
 		}
 		ins = append(ins, Input{Ph: ph, Op: &o})
 	}
+	if rng.Intn(3) == 0 {
+		// groups that name each other as backup, withdrawn together (the order of the deletes is that of a Go map)
+		ni := nis[rng.Intn(2)]
+		add("T", abs.Op{NI: ni, Kind: "nh", Key: "1", PL: "a"})
+		add("T", abs.Op{NI: ni, Kind: "nhg", Key: "2", PL: abs.NHGPayloads[0], NHs: []string{"1"}})
+		add("T", abs.Op{NI: ni, Kind: "nhg", Key: "1", PL: abs.NHGPayloads[0], NHs: []string{"1"}, BK: "2"})
+		if rng.Intn(2) == 0 {
+			add("T", abs.Op{NI: ni, Kind: "nhg", Key: "3", PL: abs.NHGPayloads[0], NHs: []string{"1"}, BK: "1"})
+		}
+		ins = append(ins, Input{Ph: "freeze", Scratch: true})
+		if rng.Intn(2) == 0 {
+			add("I", abs.Op{NI: ni, Kind: "nh", Key: "1", PL: "a"})
+		}
+		return ins
+	}
 	kind := []string{"v4", "v6", "mpls"}[rng.Intn(3)]
 	topNI := nis[rng.Intn(2)]
 	gnis := []string{"", nis[0], nis[1]}
